@@ -28,9 +28,9 @@ func TestC02Child(t *testing.T) {
 }
 
 const (
-	c02TimeBound  = 5 * time.Second  // per call, inputs <= 64 KiB
-	c02FirstWait  = 12 * time.Second // first attempt is given more than the bound (load)
-	c02RetryWait  = 40 * time.Second
+	c02TimeBound  = 10 * time.Second // per call, inputs <= 64 KiB
+	c02FirstWait  = 20 * time.Second // first attempt is given more than the bound (load)
+	c02RetryWait  = 60 * time.Second
 	c02AllocFixed = 32 << 20
 	c02AllocPerB  = 1024
 )
@@ -48,6 +48,9 @@ type c02Harness struct {
 	rec        *evi.Recorder
 	flakyCrash int
 	amplified  int
+	churn      int
+	maxChurn   uint64
+	maxChurnAt string
 	maxAmplification   float64
 	maxAmplificationAt string
 	slowFirst  int
@@ -78,7 +81,25 @@ func (h *c02Harness) judge(ei, v int, data []byte) c02Verdict {
 				if res2.Alloc < a {
 					a = res2.Alloc
 				}
-				// Over the budget. The statement forbids memory that follows *claimed*
+				// Over the budget in cumulative allocation. That is the trigger; the
+				// statement is about memory *use*, so confirm with the peak growth of
+				// the heap while the call runs (garbage churned through by, e.g., a
+				// formatter that rebuilds strings at every nesting level is CPU cost,
+				// judged by the time bound, not memory use).
+				resP := h.r.callPeak(ei, v, data, c02FirstWait)
+				if (resP.Status == c02StatusOK || resP.Status == c02StatusErr) && resP.Peak <= c02Budget(len(data)) {
+					h.churn++
+					if resP.Alloc > h.maxChurn {
+						h.maxChurn = resP.Alloc
+						h.maxChurnAt = fmt.Sprintf("%s on a %d-byte input: %d bytes allocated in total, peak heap growth %d", e.VariantName(v), len(data), resP.Alloc, resP.Peak)
+					}
+					resP.Churn = true
+					return c02Verdict{Res: resP}
+				}
+				if resP.Status == c02StatusOK || resP.Status == c02StatusErr {
+					a = resP.Peak
+				}
+				// The statement forbids memory that follows *claimed*
 				// lengths; a decoder that spends a large but fixed number of bytes per
 				// input byte actually consumed is proportional to the input. Tell the
 				// two apart by decoding the first half of the same input: consumption-
@@ -86,18 +107,18 @@ func (h *c02Harness) judge(ei, v int, data []byte) c02Verdict {
 				// the head is read) does not. A hard ceiling of 8 KiB per input byte
 				// keeps super-linear behaviour an alarm either way.
 				if a <= c02AllocFixed+8192*uint64(len(data)) && len(data) >= 2 {
-					res3 := h.r.call(ei, v, data[:len(data)/2], c02FirstWait)
-					if (res3.Status == c02StatusOK || res3.Status == c02StatusErr) && res3.Alloc*4 <= a*3 {
+					res3 := h.r.callPeak(ei, v, data[:len(data)/2], c02FirstWait)
+					if (res3.Status == c02StatusOK || res3.Status == c02StatusErr) && res3.Peak*4 <= a*3 {
 						h.amplified++
 						if f := float64(a) / float64(len(data)); f > h.maxAmplification {
 							h.maxAmplification = f
-							h.maxAmplificationAt = fmt.Sprintf("%s on a %d-byte input: %d bytes allocated, %d for its first half", e.VariantName(v), len(data), a, res3.Alloc)
+							h.maxAmplificationAt = fmt.Sprintf("%s on a %d-byte input: peak heap growth %d bytes, %d for its first half", e.VariantName(v), len(data), a, res3.Peak)
 						}
 						res2.Amplified = true
 						return c02Verdict{Res: res2}
 					}
 				}
-				return c02Verdict{"memory:" + name, fmt.Sprintf("%s allocated %d bytes (measured twice, min) decoding a %d-byte input; budget 32 MiB + 1024*len = %d", e.VariantName(v), a, len(data), c02Budget(len(data))), res2}
+				return c02Verdict{"memory:" + name, fmt.Sprintf("%s: heap grew by %d bytes at its peak (%d bytes allocated in total, re-measured) decoding a %d-byte input; budget 32 MiB + 1024*len = %d", e.VariantName(v), a, res2.Alloc, len(data), c02Budget(len(data))), res2}
 			}
 			if res2.Status < 0 || res2.Status == c02StatusPanic {
 				res = res2 // fall through to the crash/panic handling below
@@ -178,6 +199,8 @@ type c02Input struct {
 
 var ctorsByProto = map[string][]ctorEntry{}
 
+var c02Consts = hostileConstants(12000)
+
 func c02Init() {
 	loadSeeds()
 	if len(ctorsByProto) == 0 {
@@ -199,7 +222,7 @@ func genC02Input(rt *rapid.T, e *c02Entry, v *int, uniformMax int) c02Input {
 		in.Kinds = append(in.Kinds, "uniform")
 		return in
 	case mode == 2:
-		hc := rapid.SampledFrom(hostileConstants()).Draw(rt, "hostile")
+		hc := rapid.SampledFrom(c02Consts).Draw(rt, "hostile")
 		in.Data = hc.Data
 		in.Desc = append(in.Desc, "hostile constant "+hc.Name)
 		in.Kinds = append(in.Kinds, "hostile-constant")
@@ -300,7 +323,7 @@ func loadCorpus() []struct {
 func TestC02(t *testing.T) {
 	rec := evi.New(t, "C02", evi.Exploration,
 		"each case draws a public decoding entry point (table: cbor generic/typed/stream/diagnostic API, ledger block/header/tx/body/output/offset/address decoders per era, every protocol's NewMsgFromCbor for type ids 0..31) and an input: uniform bytes, a hostile constant, or a valid encoding (fixture block/header/tx/body/witness/output/address, constructor-built message, generic value) with 0-3 structure-aware mutations (truncation at node boundaries, length-field inflation to 2^16..2^64-1, nesting 1..5000, tag substitution, major-type confusion, replacement, duplicate map keys, huge bignums, indefinite/break edits, byte flips/inserts/deletes); "+
-			"every call runs in a worker process with a 4 GiB address-space cap; oracle: no panic, no worker death, elapsed <= 5 s (re-measured), allocated bytes <= 32 MiB + 1024*len(input) (re-measured); "+
+			"every call runs in a worker process with a 4 GiB address-space cap; oracle: no panic, no worker death, elapsed <= 10 s (re-measured in a fresh worker), memory: cumulative allocation > 32 MiB + 1024*len(input) triggers a re-measurement of the peak heap growth, which must stay within that budget unless it demonstrably follows the consumed input (halving test, ceiling 8 KiB per input byte); "+
 			"non-trivial = the input starts with a well-formed CBOR item (typed decoding is reached) or the call returned a value; distinct by (entry point, input bytes)")
 	defer rec.Finish()
 	rec.Assume(
@@ -354,6 +377,9 @@ func TestC02(t *testing.T) {
 		if vd.Res.Amplified {
 			rec.Class("over_budget_but_proportional")
 		}
+		if vd.Res.Churn {
+			rec.Class("total_alloc_over_budget_peak_within")
+		}
 		if wf || vd.Res.Status == c02StatusOK {
 			rec.NonTrivial(fmt.Sprintf("%s|%d|%016x|%d", e.Name, v, hash64s(in.Data), len(in.Data)),
 				map[string]any{"entry": e.VariantName(v), "input": evi.Hex(in.Data), "how": in.Desc, "status": vd.Res.Status, "alloc_bytes": vd.Res.Alloc, "elapsed_us": vd.Res.Elapsed.Microseconds()})
@@ -391,25 +417,49 @@ func TestC02(t *testing.T) {
 	}
 
 	// ---- deterministic sweep: hostile constants and corpus x every entry ----
-	consts := hostileConstants()
+	c02Consts = hostileConstants(rec.Pick(12000, 60000))
+	consts := c02Consts
 	consts = append(consts, loadCorpus()...)
 	rec.SetExtra("n_hostile_constants_and_corpus", len(consts))
+	sweepStart := time.Now()
+	sweepCalls, sweepBig := 0, 0
+	var sweepJudge, sweepBigDur time.Duration
 	sweepVariants := rec.Pick(12, 32)
+	bigVariants := rec.Pick(1, 2)
+	protoSweepVariants := rec.Pick(3, 12)
+	// the thorough tier runs as 4 shards with consecutive seeds: each sweeps a quarter of the table
+	sweepPart, sweepParts := 0, 1
+	if rec.Thorough() {
+		sweepParts = 4
+		sweepPart = int(rec.Seed() % 4)
+	}
 	for ei, e := range c02Entries {
-		if e.Hidden {
+		if e.Hidden || ei%sweepParts != sweepPart {
 			continue
 		}
 		nv := e.Variants
 		if nv > sweepVariants {
 			nv = sweepVariants
 		}
+		if e.Variants == 32 && nv > protoSweepVariants {
+			nv = protoSweepVariants
+		}
 		for v := 0; v < nv; v++ {
 			for _, hc := range consts {
-				if e.Variants == 32 && v >= 2 && len(hc.Data) > 1024 {
-					continue // all message types of a protocol share the generic decoder front end
+				if (e.Variants == 32 || e.Era != nil) && v >= bigVariants && len(hc.Data) > 1024 {
+					// all message types of a protocol / all eras of a ledger decoder share
+					// the generic decoder front end that sees the big bombs first
+					continue
 				}
 				in := c02Input{Data: hc.Data, Desc: []string{"hostile constant " + hc.Name}, Kinds: []string{"sweep"}}
+				tj := time.Now()
 				vd := h.judge(ei, v, hc.Data)
+				sweepJudge += time.Since(tj)
+				sweepCalls++
+				if len(hc.Data) > 1024 {
+					sweepBig++
+					sweepBigDur += time.Since(tj)
+				}
 				record(ei, v, in, vd)
 				if vd.Key == "harness" {
 					fmt.Printf("HARNESS-ERROR property=C02 %s\n", vd.What)
@@ -422,6 +472,11 @@ func TestC02(t *testing.T) {
 		}
 	}
 
+	rec.SetExtra("sweep_wall_s", int(time.Since(sweepStart).Seconds()))
+	rec.SetExtra("n_sweep_calls", sweepCalls)
+	rec.SetExtra("sweep_judge_ms", sweepJudge.Milliseconds())
+	rec.SetExtra("n_sweep_calls_big_input", sweepBig)
+	rec.SetExtra("sweep_big_input_ms", sweepBigDur.Milliseconds())
 	// ---- generated inputs ----
 	uniformMax := rec.Pick(4096, c02MaxInput)
 	visible := make([]int, 0, len(c02Entries))
@@ -471,6 +526,9 @@ func TestC02(t *testing.T) {
 	rec.SetExtra("n_worker_processes_spawned", runner.Spawned)
 	rec.SetExtra("n_worker_restarts", runner.Restarts)
 	rec.SetExtra("n_remeasured", h.remeasured)
+	rec.SetExtra("n_total_alloc_over_budget_but_peak_heap_within", h.churn)
+	rec.SetExtra("max_total_alloc_in_those", h.maxChurn)
+	rec.SetExtra("max_total_alloc_case", h.maxChurnAt)
 	rec.SetExtra("n_over_budget_but_proportional_to_consumed_input", h.amplified)
 	rec.SetExtra("max_bytes_allocated_per_input_byte_in_those", int(h.maxAmplification))
 	rec.SetExtra("max_amplification_case", h.maxAmplificationAt)
@@ -510,9 +568,9 @@ func c02SelfTest(h *c02Harness) string {
 		return "worker death was not turned into a crash verdict: " + vd.Key
 	}
 	// 2. allocation over budget but under the cap
-	vd = h.judge(idx("canary:alloc-claimed"), 0, head9(4, 20<<20)) // 160 MiB
+	vd = h.judge(idx("canary:alloc-claimed"), 0, head9(4, 12<<20)) // 96 MiB
 	if !strings.HasPrefix(vd.Key, "memory:") {
-		return fmt.Sprintf("160 MiB allocation not flagged: key %q alloc %d status %d", vd.Key, vd.Res.Alloc, vd.Res.Status)
+		return fmt.Sprintf("96 MiB allocation not flagged: key %q alloc %d status %d", vd.Key, vd.Res.Alloc, vd.Res.Status)
 	}
 	lap(fmt.Sprintf("160MiB: elapsed in worker %s alloc %d", vd.Res.Elapsed, vd.Res.Alloc))
 	// 3. within budget
